@@ -149,7 +149,12 @@ scalar_t stump_wlearner_t::do_fit(const dataset_t& dataset, const indices_t& sam
                               {
                                   cache.m_score           = score;
                                   cache.m_feature         = feature;
-                                  cache.m_threshold       = 0.5 * (ivalue1.first + ivalue2.first);
+                                  auto threshold = 0.5 * (ivalue1.first + ivalue2.first);
+                                  if (!(ivalue1.first < threshold && threshold <= ivalue2.first))
+                                  {
+                                      threshold = ivalue2.first;
+                                  }
+                                  cache.m_threshold = threshold;
                                   cache.m_tables.array(0) = cache.output_neg();
                                   cache.m_tables.array(1) = cache.output_pos();
                               }
